@@ -416,8 +416,12 @@ def finish(run, aud, build_s, level_text, trusted, rule, checker_cmd):
         assumptions=run.assumptions,
         wall_s=round(time.time() - run.t0, 2),
         violations=len([l for l in lines if l.startswith("VIOLATION")]))
-    os.makedirs(os.path.join(VERIF, "evidence"), exist_ok=True)
-    json.dump(ev, open(os.path.join(VERIF, "evidence", f"{run.prop}.json"), "w"), indent=1, default=str)
+    # evidence/ holds runs against /repo itself only; a run against another tree (VERIF_REPO: seeded changes,
+    # builders' scratch worktrees) writes to the ignored directory evidence_other/ instead
+    evdir = "evidence" if os.path.realpath(REPO) == os.path.realpath("/repo") else "evidence_other"
+    ev["tree_under_test"] = os.path.realpath(REPO)
+    os.makedirs(os.path.join(VERIF, evdir), exist_ok=True)
+    json.dump(ev, open(os.path.join(VERIF, evdir, f"{run.prop}.json"), "w"), indent=1, default=str)
     for l in lines:
         print(l)
     print(f"[{run.prop}] tier={run.tier} seed={run.seed} obligations={aud['obligations']} "
